@@ -632,14 +632,44 @@ def _same_arguments(
 
     return all(
         (
-            (
-                a1.name.value == a2.name.value
-                and type(a1.value) == type(a2.value)  # noqa: E721
-                and a1.value.value == a2.value.value  # type: ignore
-            )
+            a1.name.value == a2.name.value
+            and _same_value(a1.value, a2.value)
             for a1, a2 in zip(s1, s2)
         )
     )
+
+
+def _same_value(value_1: _ast.Value, value_2: _ast.Value) -> bool:
+    """
+    Structural equality of 2 value nodes, whatever their kind.
+    """
+    if type(value_1) != type(value_2):  # noqa: E721
+        return False
+
+    if isinstance(value_1, _ast.NullValue):
+        return True
+
+    if isinstance(value_1, _ast.Variable):
+        return value_1.name.value == value_2.name.value  # type: ignore
+
+    if isinstance(value_1, _ast.ListValue):
+        values_1, values_2 = value_1.values, value_2.values  # type: ignore
+        return len(values_1) == len(values_2) and all(
+            _same_value(v1, v2) for v1, v2 in zip(values_1, values_2)
+        )
+
+    if isinstance(value_1, _ast.ObjectValue):
+        fields_1 = {f.name.value: f.value for f in value_1.fields}
+        fields_2 = {
+            f.name.value: f.value for f in value_2.fields  # type: ignore
+        }
+        return (
+            len(value_1.fields) == len(value_2.fields)  # type: ignore
+            and fields_1.keys() == fields_2.keys()
+            and all(_same_value(v, fields_2[k]) for k, v in fields_1.items())
+        )
+
+    return value_1.value == value_2.value  # type: ignore
 
 
 def _types_conflict(type_1: GraphQLType, type_2: GraphQLType) -> bool:
